@@ -413,11 +413,15 @@ impl ActiveRelayActor {
         self.my_relay
             .set_status(&self.url, RelayConnectionState::Connected);
         self.metrics.relay_conns_success.inc();
+        #[cfg(iroh_verif)]
+        verif_hooks_actor::event("connected");
         let res = self
             .run_connected(client)
             .instrument(info_span!("connected"))
             .await;
         self.metrics.relay_conns_closed.inc();
+        #[cfg(iroh_verif)]
+        verif_hooks_actor::event(verif_hooks_actor::reason(&res));
         res
     }
 
@@ -1560,6 +1564,147 @@ pub mod verif_hooks {
             2
         };
         (url, code)
+    }
+}
+
+/// Verification hooks, compiled only with `--cfg iroh_verif`: run a real
+/// [`ActiveRelayActor`] from outside the crate, send it the connection-check message and
+/// observe when each of its relay connections starts and why it ends (C14).
+#[cfg(iroh_verif)]
+pub mod verif_hooks_actor {
+    use std::{
+        net::IpAddr,
+        sync::{Arc, Mutex, OnceLock, atomic::AtomicBool},
+        time::Instant,
+    };
+
+    use iroh_base::{RelayUrl, SecretKey};
+    use tokio::sync::mpsc;
+    use tokio_util::{sync::CancellationToken, task::AbortOnDropHandle};
+
+    use super::{
+        ActiveRelayActor, ActiveRelayActorOptions, ActiveRelayMessage, ActiveRelayPrioMessage,
+        RelayConnectionError, RelayConnectionOptions, RelayRecvDatagram, RelaySendItem, RunError,
+    };
+    use crate::{dns::DnsResolver, socket::Metrics as SocketMetrics};
+
+    static EVENTS: Mutex<Vec<(u64, &'static str)>> = Mutex::new(Vec::new());
+    static EPOCH: OnceLock<Instant> = OnceLock::new();
+
+    /// Milliseconds (real time) since the first use of this module.
+    pub fn now_ms() -> u64 {
+        EPOCH.get_or_init(Instant::now).elapsed().as_millis() as u64
+    }
+
+    /// Records a connection life-cycle event of an [`ActiveRelayActor`].
+    pub(super) fn event(what: &'static str) {
+        let t = now_ms();
+        EVENTS.lock().expect("poisoned").push((t, what));
+    }
+
+    /// Why `run_connected` returned.
+    pub(super) fn reason(res: &Result<(), RelayConnectionError>) -> &'static str {
+        let source = match res {
+            Ok(()) => return "closed:shutdown",
+            Err(RelayConnectionError::Dial { .. }) => return "closed:dial",
+            Err(RelayConnectionError::Handshake { source, .. }) => source,
+            Err(RelayConnectionError::Established { source, .. }) => source,
+        };
+        match source {
+            RunError::PingTimeout { .. } => "closed:ping-timeout",
+            RunError::SendTimeout { .. } => "closed:send-timeout",
+            RunError::LocalIpInvalid { .. } => "closed:local-ip-invalid",
+            RunError::LocalAddrMissing { .. } => "closed:local-addr-missing",
+            RunError::StreamClosedServer { .. } => "closed:stream-closed",
+            RunError::ClientStreamRead { .. } => "closed:read-error",
+            RunError::ClientStreamWrite { .. } => "closed:write-error",
+        }
+    }
+
+    /// Takes the events recorded so far: `(ms, "connected" | "closed:<reason>")`, in order.
+    pub fn take_events() -> Vec<(u64, &'static str)> {
+        std::mem::take(&mut *EVENTS.lock().expect("poisoned"))
+    }
+
+    /// A running [`ActiveRelayActor`] (started like in the crate's own tests).
+    #[derive(Debug)]
+    pub struct ActiveRelay {
+        inbox: mpsc::Sender<ActiveRelayMessage>,
+        _prio_inbox: mpsc::Sender<ActiveRelayPrioMessage>,
+        _datagrams_send: mpsc::Sender<RelaySendItem>,
+        _datagrams_recv: mpsc::Receiver<RelayRecvDatagram>,
+        stop: CancellationToken,
+        metrics: Arc<SocketMetrics>,
+        _task: AbortOnDropHandle<()>,
+    }
+
+    impl ActiveRelay {
+        /// Spawns the actor for `url` on the current tokio runtime.
+        pub fn start(secret_key: SecretKey, url: RelayUrl, tls_config: rustls::ClientConfig) -> Self {
+            let (prio_tx, prio_rx) = mpsc::channel(8);
+            let (inbox_tx, inbox_rx) = mpsc::channel(16);
+            let (send_tx, send_rx) = mpsc::channel(16);
+            let (recv_tx, recv_rx) = mpsc::channel(16);
+            let stop = CancellationToken::new();
+            let metrics = Arc::new(SocketMetrics::default());
+            let opts = ActiveRelayActorOptions {
+                url,
+                prio_inbox_: prio_rx,
+                inbox: inbox_rx,
+                relay_datagrams_send: send_rx,
+                relay_datagrams_recv: recv_tx,
+                connection_opts: RelayConnectionOptions {
+                    secret_key,
+                    dns_resolver: DnsResolver::new(),
+                    proxy_url: None,
+                    prefer_ipv6: Arc::new(AtomicBool::new(false)),
+                    tls_config,
+                    auth_token: None,
+                },
+                stop_token: stop.clone(),
+                metrics: metrics.clone(),
+                my_relay: Default::default(),
+            };
+            let task = tokio::spawn(ActiveRelayActor::new(opts).run());
+            Self {
+                inbox: inbox_tx,
+                _prio_inbox: prio_tx,
+                _datagrams_send: send_tx,
+                _datagrams_recv: recv_rx,
+                stop,
+                metrics,
+                _task: AbortOnDropHandle::new(task),
+            }
+        }
+
+        /// Sends `ActiveRelayMessage::CheckConnection { local_ips }`.
+        pub async fn check_connection(&self, local_ips: Vec<IpAddr>) -> bool {
+            self.inbox
+                .send(ActiveRelayMessage::CheckConnection { local_ips })
+                .await
+                .is_ok()
+        }
+
+        /// Sends `ActiveRelayMessage::SetHomeRelay` (a home relay never exits on inactivity).
+        pub async fn set_home_relay(&self, is_home: bool) -> bool {
+            self.inbox
+                .send(ActiveRelayMessage::SetHomeRelay(is_home))
+                .await
+                .is_ok()
+        }
+
+        /// `relay_conns_success` / `relay_conns_closed` of this actor's metrics.
+        pub fn conns(&self) -> (u64, u64) {
+            (
+                self.metrics.relay_conns_success.get(),
+                self.metrics.relay_conns_closed.get(),
+            )
+        }
+
+        /// Cancels the actor's stop token.
+        pub fn stop(&self) {
+            self.stop.cancel();
+        }
     }
 }
 
